@@ -202,6 +202,10 @@ def random_case(rng):
 
 
 def run_script(R, rec, data, script, use_guard=True):
+    # a decoy reader over other data is driven in between: state shared between instances
+    # (class-level caches, module globals) would let it disturb the reader under observation
+    decoy = R(bytes(reversed(data)) + b"\xff\x01\xff")
+    decoy_ops = [("get_byte",), ("get_short",), ("next_chunk",), ("get_string",), ("get_fixed_string", 2, True)]
     real, model = R(data), RefReader(data)
     g = guardmod.install(real, data) if use_guard else None
     ls = LockstepReader(real, model, guard=g)
@@ -212,6 +216,13 @@ def run_script(R, rec, data, script, use_guard=True):
         for op in script:
             rec.seen("transitions", abstract(ls._m) + " --" + op[0] + "-->")
             done.append(op)
+            dop = decoy_ops[len(done) % len(decoy_ops)]
+            try:
+                if len(done) % 3 == 0:
+                    decoy.chunked_reading_mode = not decoy.chunked_reading_mode
+                getattr(decoy, dop[0])(*dop[1:])
+            except (RuntimeError, ValueError):
+                pass
             nxt = apply(ls, op)
             if nxt is not ls:
                 root.check_state("parent-after-slice")
